@@ -229,6 +229,8 @@ def function(ip: Interp, fn: PyConst, args, kwargs, n):
         ip.oos('type() of this value', n)
     if name in ('out_ok', 'out_frame', 'out_ret', 'out_cut', 'out_fail_frame'):
         f, fr = args
+        if isinstance(f, BoundMeth) and isinstance(f.recv, Opaque) and isinstance(f.target, PyConst) and f.target.kind == 'opaquemethod':
+            f = FuncVal(f.target.name, f.recv.ident)  # `node._parse` as a function value
         ident = f.ident if isinstance(f, (FuncVal, Opaque)) else None
         if ident is None:
             ip.oos(f'{name}: first argument must be a parse function', n)
